@@ -49,6 +49,8 @@ def eval_handler(f, variant, fail=None):
             nm = str(name)
             if nm in it_pending:
                 return it_pending[nm]
+            if nm.startswith("fut:stream("):
+                return E.Ok(E.UNIT)
             return None
         if kind != "call":
             return None
@@ -87,6 +89,7 @@ def eval_handler(f, variant, fail=None):
             return E.UNIT
         if name in ("spawn_local", "spawn") and names and "tasks" in names[0]:
             log.append(("spawn", name, names[1:]))
+            it.drive(args[1])         # a spawned task runs: what it does belongs to the handling of the request
             return E.Tok("abort-handle")
         if callee_matches(t, r"actor::iter_to_irpc$"):
             log.append(("stream", "iter_to_irpc", names))
